@@ -101,7 +101,7 @@ class C09(Prop):
     pid = "C09"
     prop_file = "Props/C09.v"
     module = "Props.C09"
-    gen_deps = ["Choice"]
+    gen_deps = ["Choice", "ChoiceFn"]
     harness = ("h-core", "hcore")
     nontrivial_rule = (
         "cases: the full cross product global {Auto, AlwaysAnsi, Always, Never} x NO_COLOR {unset,'','0','1'} x CLICOLOR_FORCE {unset,'','0','1'} x "
@@ -118,8 +118,11 @@ class C09(Prop):
         "non-trivial = distinct case line whose outcome is not fixed by an explicit choice: global = Auto for configurations; for a probe, an answer other than "
         "the one for an empty environment; for the flag, a word clap accepts; every write_global case")
     trusted = [
-        "translator tools/gen_choice.py (variable names and literals of the anstyle_query probes with their whole bodies shape-checked, "
-        "from_choice/to_choice arms, as_choice arms, IsTerminal impl classification)",
+        "translator tools/gen_choice.py (variable names and literals of the anstyle_query probes, from_choice/to_choice arms, as_choice arms, "
+        "IsTerminal impl classification) and the function translator tools/gen_fn_choice.py + tools/rs2v (the bodies of the probes, of the "
+        "AtomicChoice / ColorChoice::global / write_global plumbing, of Color::write_global and of anstream::auto::choice, proved equal to the "
+        "hand model in Proofs/ChoiceGen.v; vocabulary: std::env::var_os = the abstract environment, AtomicUsize = a register, "
+        "static USER = a threaded parameter, raw.is_terminal() = a boolean, #[cfg(windows)] blocks skipped)",
         "the child mode of harness/h-core/src/c09.rs (std::env::set_var/remove_var on one thread, result file instead of stdout) and harness/h-clap",
         "clap's own value parser (third party): only its observable accept/reject behaviour on the tested words is compared",
     ]
